@@ -1,194 +1,7 @@
-//! join / try_join / race / race_ok over tuples, arrays and Vecs, `FutureExt::{join, race}`,
-//! future `wait_until`, with optional one level of nesting.
-
-use futures_concurrency::future::FutureExt;
-use futures_concurrency::prelude::*;
+//! join / try_join / race / race_ok / future wait_until driver (see drivers/src/futs.rs).
 use polldfs_core::*;
+use polldfs_drivers::futs::*;
 use polldfs_drivers::*;
-use std::future::Future;
-use std::ops::DerefMut;
-
-struct FutSubject(BoxFut);
-impl Subject for FutSubject {
-    fn poll(&mut self, cx: &mut std::task::Context<'_>) -> Polled {
-        match self.0.as_mut().poll(cx) {
-            std::task::Poll::Pending => Polled::Pending,
-            std::task::Poll::Ready(r) => Polled::Done(r),
-        }
-    }
-}
-
-fn fam_of(s: &str) -> Fam {
-    match s {
-        "join" => Fam::Join,
-        "try_join" => Fam::TryJoin,
-        "race" => Fam::Race,
-        "race_ok" => Fam::RaceOk,
-        "wait" => Fam::WaitFut,
-        other => panic!("unknown family {}", other),
-    }
-}
-
-fn bx<F: Future + 'static>(f: F, m: impl Fn(F::Output) -> Ret + 'static) -> BoxFut {
-    Box::pin(MapFut::new(f, m))
-}
-
-fn m_join<C: Flat>(c: C) -> Ret {
-    Ret::Plain(Out::L(c.flat()))
-}
-fn m_try<C: Flat>(r: Result<C, Out>) -> Ret {
-    match r {
-        Ok(c) => Ret::Ok(Out::L(c.flat())),
-        Err(e) => Ret::Err(e),
-    }
-}
-fn m_race(o: Out) -> Ret {
-    Ret::Plain(o)
-}
-fn m_race_ok<A, T>(r: Result<Out, A>) -> Ret
-where
-    A: DerefMut<Target = T>,
-    T: AsMut<[Out]>,
-{
-    match r {
-        Ok(o) => Ret::Ok(o),
-        Err(mut agg) => {
-            let v: Vec<Out> = agg.deref_mut().as_mut().iter_mut().map(|e| std::mem::replace(e, Out::L(Vec::new()))).collect();
-            Ret::Err(Out::L(v))
-        }
-    }
-}
-
-fn concurrent(f: Fam) -> bool {
-    matches!(f, Fam::Join | Fam::TryJoin | Fam::Race | Fam::RaceOk)
-}
-fn selective(f: Fam) -> bool {
-    STD && matches!(f, Fam::Join | Fam::TryJoin)
-}
-
-/// Create the children of combinator `comb` (leaves, or a nested combinator at slot `npos`).
-fn plain_nodes(item: &PItem, comb: u16, n: usize, depth: usize) -> Vec<Node> {
-    let nest = item.s("nest");
-    let npos = item.u("npos", 0);
-    (0..n)
-        .map(|slot| {
-            if depth == 0 && !nest.is_empty() && slot == npos {
-                let ifam = fam_of(nest);
-                let child = with(|w| w.new_child(comb, slot as u16, false, true, Spec::default()));
-                let k2 = with(|w| w.new_comb(ifam, child, selective(ifam), concurrent(ifam), home_of(ifam)));
-                let inner = build(item, ifam, item.s("ncont"), item.u("nin", 2), k2, 1);
-                Node::Inner(NestFut(Nest { child, comb: k2, inner: Some(inner) }))
-            } else {
-                let id = with(|w| w.new_child(comb, slot as u16, false, false, if depth == 0 { spec_for(item, slot) } else { inner_spec(item, slot) }));
-                Node::Leaf(Leaf { id })
-            }
-        })
-        .collect()
-}
-
-fn inner_spec(item: &PItem, slot: usize) -> Spec {
-    let nv = item.u("inv", 0);
-    Spec { never: (nv >> slot) & 1 == 1, always: false, can_err: item.u("err", 0) != 0, eager: false }
-}
-
-fn try_nodes(item: &PItem, comb: u16, n: usize, depth: usize) -> Vec<TryNode> {
-    let nest = item.s("nest");
-    let npos = item.u("npos", 0);
-    (0..n)
-        .map(|slot| {
-            if depth == 0 && !nest.is_empty() && slot == npos {
-                let ifam = fam_of(nest);
-                let child = with(|w| w.new_child(comb, slot as u16, false, true, Spec::default()));
-                let k2 = with(|w| w.new_comb(ifam, child, selective(ifam), concurrent(ifam), home_of(ifam)));
-                let inner = build(item, ifam, item.s("ncont"), item.u("nin", 2), k2, 1);
-                TryNode::Inner(NestTry(Nest { child, comb: k2, inner: Some(inner) }))
-            } else {
-                let mut sp = if depth == 0 { spec_for(item, slot) } else { inner_spec(item, slot) };
-                sp.can_err = item.u("err", 1) != 0;
-                let id = with(|w| w.new_child(comb, slot as u16, false, false, sp));
-                TryNode::Leaf(TryLeaf { id })
-            }
-        })
-        .collect()
-}
-
-fn build(item: &PItem, fam: Fam, cont: &str, n: usize, comb: u16, depth: usize) -> BoxFut {
-    let cont = if cont.is_empty() { "vec" } else { cont };
-    match fam {
-        Fam::Join => {
-            let nodes = plain_nodes(item, comb, n, depth);
-            match cont {
-                #[cfg(any(feature = "cfg-std", feature = "cfg-alloc"))]
-                "vec" => bx(nodes.join(), m_join),
-                "array" => with_array!(n, nodes, a => bx(a.join(), m_join)),
-                "tuple" => {
-                    if n == 0 {
-                        bx(().join(), m_join)
-                    } else {
-                        with_tuple!(n, nodes, t => bx(t.join(), m_join))
-                    }
-                }
-                "ext" => {
-                    let mut it = nodes.into_iter();
-                    let (a, b) = (it.next().unwrap(), it.next().unwrap());
-                    bx(FutureExt::join(a, b), m_join)
-                }
-                other => panic!("container {} not available in this configuration", other),
-            }
-        }
-        Fam::TryJoin => {
-            let nodes = try_nodes(item, comb, n, depth);
-            match cont {
-                #[cfg(any(feature = "cfg-std", feature = "cfg-alloc"))]
-                "vec" => bx(nodes.try_join(), m_try),
-                "array" => with_array!(n, nodes, a => bx(a.try_join(), m_try)),
-                "tuple" => {
-                    if n == 0 {
-                        bx(().try_join(), |r: Result<(), std::convert::Infallible>| match r {
-                            Ok(()) => Ret::Ok(Out::L(Vec::new())),
-                            Err(e) => match e {},
-                        })
-                    } else {
-                        with_tuple!(n, nodes, t => bx(t.try_join(), m_try))
-                    }
-                }
-                other => panic!("container {} not available in this configuration", other),
-            }
-        }
-        Fam::Race => {
-            let nodes = plain_nodes(item, comb, n, depth);
-            match cont {
-                #[cfg(any(feature = "cfg-std", feature = "cfg-alloc"))]
-                "vec" => bx(nodes.race(), m_race),
-                "array" => with_array!(n, nodes, a => bx(a.race(), m_race)),
-                "tuple" => with_tuple!(n, nodes, t => bx(t.race(), m_race)),
-                "ext" => {
-                    let mut it = nodes.into_iter();
-                    let (a, b) = (it.next().unwrap(), it.next().unwrap());
-                    bx(FutureExt::race(a, b), m_race)
-                }
-                other => panic!("container {} not available in this configuration", other),
-            }
-        }
-        Fam::RaceOk => {
-            let nodes = try_nodes(item, comb, n, depth);
-            match cont {
-                #[cfg(any(feature = "cfg-std", feature = "cfg-alloc"))]
-                "vec" => bx(nodes.race_ok(), m_race_ok),
-                "array" => with_array!(n, nodes, a => bx(a.race_ok(), m_race_ok)),
-                "tuple" => with_tuple!(n, nodes, t => bx(t.race_ok(), m_race_ok)),
-                other => panic!("container {} not available in this configuration", other),
-            }
-        }
-        Fam::WaitFut => {
-            // slot 0 = deadline, slot 1 = inner future
-            let d = with(|w| w.new_child(comb, 0, false, false, spec_for(item, 0)));
-            let i = with(|w| w.new_child(comb, 1, false, false, spec_for(item, 1)));
-            bx(FutureExt::wait_until(Leaf { id: i }, Leaf { id: d }), m_race)
-        }
-        other => panic!("family {:?} is not a future family", other),
-    }
-}
 
 fn runner(item: &PItem) {
     let fam = fam_of(item.s("fam"));
